@@ -6,6 +6,7 @@ snapshotted interface under `ircmp` (names/order, type strings, defaults by valu
 type, descriptions modulo whitespace / terminal full stop / 'Defaults to' clause, return entry).
 """
 
+import inspect
 import sys
 from collections import OrderedDict
 from copy import deepcopy
@@ -29,13 +30,16 @@ ASSUMPTIONS = [
     "ircmp applies only the normalisations the property grants (whitespace, terminal full stop, 'Defaults to' clause)",
     "descriptions are generated from a vocabulary free of cdd's documented type-hint trigger words",
     "with emit_default_doc=False on the emit side the docstring carries no default, so none is expected back",
+    "complex-typed parameters with an imaginary default (random stream) probe the type-directed reading of defaults; "
+    "they are compared only with emit_types=True and prose defaults kept, the configuration in which the type is known",
 ]
 STYLES = ("rest", "google", "numpydoc")
 CUR = {}
 
 CORE_TKINDS = ("int", "float", "str", "bool", "optional", "literal", "list", "union", "dotted")
 CORE_DKINDS = ("absent", "int", "negint", "zero", "float", "negfloat", "smallfloat", "bool", "str", "strspace",
-               "strtilde", "strdot")
+               "strtilde", "strdot", "imag")
+RANDOM_TKINDS = CORE_TKINDS + ("complex",)  # scalar whose default text ('1j') reads correctly only once the type is known
 PROBE_DKINDS = ("none", "code", "emptystr")
 
 
@@ -61,7 +65,7 @@ MATRIX = _matrix()
 
 def streams(ctx):
     return [("matrix", len(MATRIX)), ("random", ctx.scale(250, 6000)), ("zero_params", ctx.scale(12, 100)),
-            ("probe", ctx.scale(60, 600)), ("longdoc", ctx.scale(120, 2500))]
+            ("probe", ctx.scale(60, 600)), ("longdoc", ctx.scale(120, 2500)), ("indented", ctx.scale(120, 2500))]
 
 
 def _strip_for_config(ir, et, edd_emit):
@@ -73,7 +77,8 @@ def _strip_for_config(ir, et, edd_emit):
     return exp
 
 
-def post_docstring(intermediate_repr, docstring_format, emit_types, emit_default_doc, word_wrap, result, OLD):
+def post_docstring(intermediate_repr, docstring_format, emit_types, emit_default_doc, word_wrap, indent_level, result,
+                   OLD):
     """postcondition of cdd.docstring.emit.docstring (observe mode: records, returns True)"""
     P = CUR.get("P")
     if P is None or CUR.get("busy"):
@@ -85,18 +90,34 @@ def post_docstring(intermediate_repr, docstring_format, emit_types, emit_default
         if not ir.get("params") and not ir.get("returns"):
             return True
         exp = _strip_for_config(ir, emit_types, emit_default_doc)
+        # a docstring rendered for a nested position (indent_level > 0) is read back the way every cdd parser reads
+        # one: through `ast.get_docstring(clean=True)`, i.e. inspect.cleandoc
+        text = inspect.cleandoc(result) if indent_level else result
+        if indent_level:
+            P.monitor("docstring.emit.post.indented")
         for edd_parse in (True, False):
             cfg = {"style": docstring_format, "et": emit_types, "edd": emit_default_doc, "ww": word_wrap,
-                   "edd_parse": edd_parse}
+                   "edd_parse": edd_parse, "indent": indent_level}
             try:
-                back = cdd.docstring.parse.docstring(result, emit_default_doc=edd_parse)
+                back = cdd.docstring.parse.docstring(text, emit_default_doc=edd_parse)
                 P.monitor("docstring.parse.called")
             except Exception as e:
                 _dev(P, ir, cfg, {"where": "parse", "field": "raises", "how": type(e).__name__, "exp": None,
                                   "got": repr(e)[:200], "index": -1, "n": len(ir["params"]), "tkind": "-",
                                   "dkind": "-"}, result)
                 continue
-            for d in cmp_ir(exp, back, typ=emit_types):
+            exp_c = exp
+            if not (emit_types and edd_parse):
+                # a complex default ('1j') is outside the property's default domain: its text is only readable with
+                # the type at hand, so it is compared where the type is in the text and the prose is kept, and
+                # left out of the comparison elsewhere
+                cplx = [k for k, p in ir["params"].items() if p.get("typ") == "complex"]
+                if cplx:
+                    exp_c, back = deepcopy(exp), deepcopy(back)
+                    for k in cplx:
+                        exp_c["params"][k].pop("default", None)
+                        (back.get("params") or {}).get(k, {}).pop("default", None)
+            for d in cmp_ir(exp_c, back, typ=emit_types):
                 _dev(P, ir, cfg, d, result)
             if not emit_types:
                 # types omitted from the text: nothing must be *invented* for a typed slot
@@ -123,8 +144,10 @@ def classify(ir, cfg, d):
     if style == "numpydoc" and et and cfg.get("ww") and long_doc and (
             (where == "names" and how == "extra") or (where in ("param", "return") and field == "doc")):
         mech = "docstring.numpydoc.wrapped-description-misparsed"
-    elif cfg.get("ww") and long_doc and where in ("param", "return") and dk == "strspace" and field == "default" and \
-            how == "value" and "\\n" in (got or ""):
+    elif style == "rest" and cfg.get("edd_parse") is False and cfg.get("ww") and long_doc and where in (
+            "param", "return") and dk == "strspace" and field == "default" and how == "value" and "\\n" in (got or ""):
+        # (only when the parser is asked to strip the prose default: the default is then taken from the still
+        # wrapped line; with the prose kept the joined text is re-read and the value is right)
         mech = "docstring.wrap-breaks-inside-string-default"
     elif style == "numpydoc" and not et and (where == "names" or (where == "parse" and how in ("KeyError", "IndexError"))
                                            or (where == "returns" and how == "lost")):
@@ -176,7 +199,7 @@ def gen_case(ctx, stream, idx):
         tk, dk, n, pos, wr = MATRIX[idx]
         return irgen.matrix_ir(r, tk, dk, n, pos, with_return=wr)
     if stream == "random":
-        return irgen.rand_ir(r, type_kinds=CORE_TKINDS, default_kinds=CORE_DKINDS, nparams=r.randint(1, 6))
+        return irgen.rand_ir(r, type_kinds=RANDOM_TKINDS, default_kinds=CORE_DKINDS, nparams=r.randint(1, 6))
     if stream == "zero_params":
         return irgen.rand_ir(r, nparams=0, with_return=True, type_kinds=CORE_TKINDS)
     if stream == "longdoc":
@@ -184,6 +207,9 @@ def gen_case(ctx, stream, idx):
         ir = irgen.rand_ir(r, type_kinds=CORE_TKINDS, default_kinds=CORE_DKINDS, nparams=r.randint(1, 4),
                            doc_kinds=("long", "long", "plain"))
         return ir
+    if stream == "indented":
+        return irgen.rand_ir(r, type_kinds=CORE_TKINDS, default_kinds=CORE_DKINDS, nparams=r.randint(1, 5),
+                             doc_kinds=("plain", "plain", "long"))
     if stream == "probe":
         return irgen.rand_ir(r, nparams=r.randint(1, 4), default_kinds=PROBE_DKINDS + ("absent", "int", "str"))
     raise ValueError(stream)
@@ -191,18 +217,23 @@ def gen_case(ctx, stream, idx):
 
 def run_case(ctx, P, stream, idx):
     ir = gen_case(ctx, stream, idx)
+    if stream != "matrix" and ctx.rng(stream + ".hdr", idx).random() < 0.2:
+        ir["doc"] = ""  # no description of the interface itself: the text begins with the parameter section
     CUR.update(P=P, stream=stream, idx=idx)
     sh = irgen.shape(ir)
+    r = ctx.rng(stream + ".opts", idx)
     for style, edd, et, ww in product(STYLES, (True, False), (True, False), (True, False)):
-        P.case({"ir": ir, "style": style, "edd": edd, "et": et, "ww": ww},
+        # nested position: the text is indented (and optionally ends in a separating tab) as inside a def/class
+        indent, sep_tab = (r.choice((1, 2, 3)), r.random() < 0.5) if stream == "indented" else (0, True)
+        P.case({"ir": ir, "style": style, "edd": edd, "et": et, "ww": ww, "indent": indent, "sep": sep_tab},
                nontrivial=bool(ir["params"] or ir.get("returns")),
                klass="%s/%s" % (stream, style),
-               sample={"style": style, "edd": edd, "et": et, "ww": ww, "shape": sh, "ir": ir})
+               sample={"style": style, "edd": edd, "et": et, "ww": ww, "indent": indent, "shape": sh, "ir": ir})
         try:
             cdd.docstring.emit.docstring(deepcopy(ir), docstring_format=style, emit_default_doc=edd, emit_types=et,
-                                         word_wrap=ww)
+                                         word_wrap=ww, indent_level=indent, emit_separating_tab=sep_tab)
         except Exception as e:
-            cfg = {"style": style, "et": et, "edd": edd, "ww": ww}
+            cfg = {"style": style, "et": et, "edd": edd, "ww": ww, "indent": indent}
             _dev(P, ir, cfg, {"where": "emit", "field": "raises", "how": type(e).__name__, "exp": None,
                               "got": repr(e)[:200], "index": -1, "n": sh["n"], "tkind": "-", "dkind": "-"}, None)
     CUR.update(P=None)
